@@ -287,9 +287,12 @@ def check(prop, tier):
     for k in active.values():
         w = k["witness"]
         rep = concrete(
-            module,
+            w.get("module", module),
             [{"kind": "eval", "params": w["params"], "pre": [], "body": w["body"], "args": w["args"]}],
         )[0]
+        if rep["exc"] and rep["exc"].startswith(("AttributeError: module", "NameError", "ImportError", "ModuleNotFoundError")):
+            print("harness-error: witness of %s could not be evaluated: %s" % (k["id"], rep["exc"]))
+            return 3
         if rep["exc"] or rep["result"] is False:
             kf_lines.append("KNOWN-FINDING: property=%s %s [%s]" % (prop, k["what"], k["id"]))
         else:
